@@ -307,7 +307,23 @@ class World:
                 return r
         if obj.cls.lookup("__getattr__") is not None or obj.cls.lookup("__getattribute__") is not None:
             interp.unsupported(f"{obj.cls.name}.__getattr__ (attribute protocol not modelled)", node)
+        # an object built by a harness (not by the code under contract) lacks a field that the class's own constructor sets: the
+        # harness does not know the class any more - that is a contract that no longer fits (undecided), not an AttributeError of the code
+        if not getattr(obj, "fresh", True) and self._ctor_sets(obj.cls, name):
+            interp.unsupported(f"a harness-built {obj.cls.name} lacks the field `{name}` that {obj.cls.name}.__init__ sets (the harness predates it)", node)
         interp.throw("AttributeError", f"'{obj.cls.name}' object has no attribute '{name}'", node)
+
+    def _ctor_sets(self, cls, name):
+        import ast as _ast
+        for c in getattr(cls, "mro", [cls]):
+            init = getattr(c, "methods", {}).get("__init__")
+            fn = getattr(init, "node", None)
+            if fn is None:
+                continue
+            for n_ in _ast.walk(fn):
+                if isinstance(n_, _ast.Attribute) and isinstance(n_.ctx, _ast.Store) and n_.attr == name and isinstance(n_.value, _ast.Name) and n_.value.id == "self":
+                    return True
+        return False
 
     def elem_eq(self, interp, a, b):
         h = self.hooks.get("elem_eq")
